@@ -36,7 +36,12 @@ LatticeCols == {"orig_x", "orig_y", "orig_z", "x_shift", "y_shift", "z_shift"}
 IntCols == {"subtomo_num", "motl_idx"}
 NumericCols == SC!SharedSg \cup {"motl_idx"}
 
-Gamma(t, c, v) == IF c \in LatticeCols THEN LatCanon(v) ELSE IF c \in IntCols THEN IntCanonE(v, 0) ELSE t.gamma[v]
+\* subtomogram numbers are  sidk * 10^9 + v  (composite ids beyond 2^31; v < 10^9 keeps TLC's integers small)
+BigCanon(k, v) == IF k = 0 THEN IntCanonE(v, 0)
+                  ELSE Normalize(FALSE, [i \in 1..10 |-> (k \div Pow10[i]) % 10] \o [i \in 1..9 |-> (v \div Pow10[i + 1]) % 10], 0)
+Gamma(t, c, v) == IF c \in LatticeCols THEN LatCanon(v)
+                  ELSE IF c = "subtomo_num" \/ (c = "motl_idx" /\ ~t.reset) THEN BigCanon(t.sidk, v)
+                  ELSE IF c \in IntCols THEN IntCanonE(v, 0) ELSE t.gamma[v]
 
 ColIndex(labels, name) == LET K == {k \in 1..Len(labels) : labels[k] = name} IN IF Cardinality(K) = 1 THEN SetMin(K) ELSE 0
 
